@@ -518,6 +518,31 @@ func init() {
 		} {
 			c07one(t, nil)
 		}
+		// a mapping that does nothing but merge another mapping has that mapping's content - also when two of its
+		// keys are different YAML keys that the decoder gives the same name (1 and "1")
+		for _, pr := range [][2]string{{"1", `"1"`}, {"true", `"true"`}, {`"k"`, "k2"}, {"0x10", `"16"`}} {
+			for _, tmpl := range []string{"x: &x {%s: first, mid: m, %s: second}\ny: {<<: *x}\n", "x: &x {%s: first, %s: second}\ny: {<<: [*x]}\nz: *x\n"} {
+				text := fmt.Sprintf(tmpl, pr[0], pr[1])
+				noteCase("C07", text)
+				var nd yaml.Node
+				if yaml.Unmarshal([]byte(text), &nd) != nil {
+					continue
+				}
+				v, err := ordered.DecodeYAML(&nd)
+				m, ok := v.(*ordered.MapSA)
+				if err != nil || !ok {
+					oracleFail("C07", "acyclic-rejected", sx.A(text), fmt.Sprintf("decode fails: %v", err))
+					continue
+				}
+				x, _ := m.Get("x")
+				y, _ := m.Get("y")
+				if sx.String(anySexp(x)) != sx.String(anySexp(y)) {
+					oracleFail("C07", "merge-differs-from-source", sx.A(text), fmt.Sprintf("x decodes to %s, y (which only merges x) to %s", sx.String(anySexp(x)), sx.String(anySexp(y))))
+					continue
+				}
+				stat("C07", "merge-equals-source")
+			}
+		}
 		// bounded time: merge graphs with very many distinct paths to the same mapping (a ladder in which every
 		// rung merges both mappings of the rung below, and a dense cycle in which every mapping merges all the
 		// others) decode in time linear in the number of mappings, because each mapping is merged once
